@@ -3209,6 +3209,21 @@ static int get_more_chars(struct scanner_s *scanner) {
         UChar *trail;
         UChar *dest;
 
+        /*
+         * A CR that ended the previous fill has already been converted to a newline.  If this fill starts with the LF
+         * of the same CR LF pair then that LF must be dropped, lest the pair read as two line terminators.
+         */
+        if (scanner->cr_at_fill_end && (*lead == UCHAR_NL)) {
+            nread -= 1;
+            bound -= 1;
+            if (nread == 0) {
+                scanner->cr_at_fill_end = CIF_FALSE;
+                return get_more_chars(scanner);
+            }
+            u_memmove(lead, lead + 1, nread);
+        }
+        scanner->cr_at_fill_end = (*(bound - 1) == UCHAR_CR);
+
         do {
             lead = u_memchr(lead, UCHAR_CR, bound - lead);
             if ((!lead) || ((lead + 1 < bound) && (*(lead + 1) == UCHAR_NL))) {
